@@ -4,6 +4,7 @@ from .c18lib import hx, NAME_OK
 
 LANGS = [2201, 2101, 2402, 2401, 2302, 2301, 1601, 1202, 1104, 1301]   # SyncML 1.2 / 1.1 (MetInf pages), ActiveSync, AirSync, WV CSP 1.2 / 1.1, PROV and WTA-WML (two attribute pages), WML, SI
 MULTI = [2201, 2101, 2402, 2401, 2302, 2301, 1601, 1202]
+EMBED = {2201: 2202, 2101: 2102}                           # SyncML -> the DevInf language of its embedded documents
 COVERED_LANGS = [2201, 2101, 2402, 2401]                    # the concrete Coq instance: plain tokens + inline strings
 PLAIN_TEXTS = [b"zq", b"zq7", b"Zq-x", b"qz 1", b"zzq"]       # no table value / extension token matches these
 OTHER_TEXTS = [b"text/plain", b"hello world", b" a ", b"1 < 2 & 3", b"20260930T120000Z", b"42", b"T", b"www.example.org",
@@ -73,6 +74,24 @@ class Pools:
                 inf["text"] = False
                 infos.append(inf)
         if not covered and rng.chance(1, 2):
+            # nodes that encode to NOTHING (an empty text node, an empty CDATA section, a blank text when blanks are
+            # ignored): they are still "the last node" for delete_last_node
+            for z in rng.choice([["x-"], ["c.(.)"], ["x" + hx(b"  "), "x-"], ["x-", "c.(.)"]]):
+                specs.append(z)
+                infos.append({"text": True, "has_kids": False, "zero": True})
+        if not covered and lid in EMBED and rng.chance(1, 2):
+            # an element holding an EMBEDDED document (TREE node: SyncML <Data> with a DevInf document)
+            sub = EMBED[lid]
+            SL = self.langs[sub]
+            def sidx(name):
+                return next(i for i, r in enumerate(SL["tags"]) if r[0] == name)
+            kids = ["e%d.(.x%s.)" % (sidx("VerDTD"), hx(rng.choice([b"1.2", b"1.1"]))), "e%d.(.x%s.)" % (sidx("Man"), hx(b"ACME"))]
+            if rng.chance(1, 2):
+                kids.append("e%d.(.x%s.)" % (sidx("DevID"), hx(b"dev-1")))
+            data = next(i for i, r in enumerate(self.langs[lid]["tags"]) if r[0] == "Data")
+            specs.append("e%d.(.t%d.(.e%d.(.%s.).).)" % (data, sub, sidx("DevInf"), ".".join(kids)))
+            infos.append({"text": False, "has_kids": True, "page": 0, "embedded": True})
+        if not covered and rng.chance(1, 2):
             # a binary-flagged element (its text is opaque / base64) and a text node, for the directed pattern below
             bins = [i for i, r in enumerate(self.langs[lid]["tags"]) if r[3] & 1 and (not xml_mode or NAME_OK.match(r[0]))]
             if bins:
@@ -89,10 +108,15 @@ def history(rng, infos, nops, raw=True, drate=20):
     ops, open_stack = [], []
     elts = [i for i, inf in enumerate(infos) if not inf["text"]]
     bins = [i for i, inf in enumerate(infos) if inf.get("binary")]
-    texts = [i for i, inf in enumerate(infos) if inf["text"]]
+    texts = [i for i, inf in enumerate(infos) if inf["text"] and not inf.get("zero")]
+    zeros = [i for i, inf in enumerate(infos) if inf.get("zero")]
     unused = list(range(len(infos)))
     for _ in range(nops):
         r = rng.below(100)
+        if zeros and rng.chance(1, 10):
+            # directed: a node that writes nothing, then a deletion: nothing may disappear
+            ops += ["N%d" % rng.below(len(infos)), "N%d" % rng.choice(zeros), "D"]
+            continue
         if raw and bins and texts and rng.chance(1, 12):
             # directed: a raw start of a binary-flagged element, deleted, then a text node (current_tag must not survive)
             ops += ["S%d,1" % rng.choice(bins), "D", "N%d" % rng.choice(texts)]
